@@ -187,7 +187,9 @@ func scenarioConfig(t *traceWriter, rng *rand.Rand) {
 // ---------------------------------------------------------------- synthetic configurations through AsLogMap (C12, C02)
 
 func ecdsaVKey(rng *rand.Rand, name string) string {
-	k, err := ecdsa.GenerateKey(elliptic.P256(), detReader{rng})
+	// ecdsa.GenerateKey reads a random number of bytes (randutil.MaybeReadByte): it gets a generator of its own, seeded by one
+	// draw, so that everything drawn afterwards from the scenario's generator is the same on every run
+	k, err := ecdsa.GenerateKey(elliptic.P256(), detReader{rand.New(rand.NewSource(rng.Int63()))})
 	if err != nil {
 		panic(err)
 	}
@@ -285,10 +287,11 @@ func scenarioCfgMap(t *traceWriter, rng *rand.Rand) {
 				cp := signNote(cpText(l.origin, 4, tr.root(4)), k.signer)
 				s.update(l.id, 0, cp, [][]byte{}, "class=cfgmap.cross")
 			}
-			// and another configured log's checkpoint under this ID
-			o := defs[rng.Intn(len(defs))]
-			if o.key.signer != nil {
-				s.update(l.id, 0, signNote(cpText(o.origin, 5, tr.root(5)), o.key.signer), [][]byte{}, "class=cfgmap.otherOrigin")
+			// and every other configured log's checkpoint under this ID
+			for _, o := range defs {
+				if o != l && o.key.signer != nil {
+					s.update(l.id, 0, signNote(cpText(o.origin, 5, tr.root(5)), o.key.signer), [][]byte{}, "class=cfgmap.otherOrigin")
+				}
 			}
 		}
 		// the same forged checkpoint (body edited, signature block untouched) from many clients at once: whatever the
